@@ -328,15 +328,12 @@ def slice_properties(ctx: Ctx):
         tw = swap_ident(name)
         if tw not in sl.members or name in excluded:
             continue
-        er = expand(ctx.repo, sl, name, stop=lambda mm: True)
-        ec = expand(ctx.repo, sl, tw, stop=lambda mm: True)
+        # `self._rows_dimension` is by definition `self._dimensions[0]`: expand only that alias
+        er = expand(ctx.repo, sl, name, stop=lambda mm: mm.name != "_rows_dimension")
+        ec = expand(ctx.repo, sl, tw, stop=lambda mm: mm.name != "_rows_dimension")
         v, tt, why = compare_twins(er, ec)
         where = f"cubepart.py::_Slice.{name} <-> {tw}"
         n += 1
         ctx.count("slice property pairs")
-        if v is None and name in ("rows_dimension_name", "rows_dimension_description", "rows_dimension_type", "_rows_dimension_numeric_values"):
-            # `self._rows_dimension` vs `self._dimensions[1]`: same dimension by definition of _rows_dimension
-            er2 = expand(ctx.repo, sl, name, stop=lambda mm: mm.name != "_rows_dimension")
-            v, tt, why = compare_twins(er2, ec)
         ctx.ob("slice-mirror", where, tt[:250], u(ec)[:250], v, "paired row/column properties of the slice are mirror images. " + why)
     ctx.require_min("slice property pairs", 25)
